@@ -35,6 +35,16 @@ CHECKS = {
          "Every reachable state is checked; TTL boundaries are enumerated at ttl-1, ttl, ttl+1.",
          "Scenario bounds as C01.",
          "3/C20"),
+ "C03": ("E1 mdkx", "model_checking",
+         "explicit-state BFS: every observer (never-member, ex-member, joiner, leaver, second device) gets its own complete graph in the unrestricted regime over every wrapper and every welcome rumor ever published, with process/accept/decline transitions",
+         "Every replay order of everything ever published is explored for each observer on the real client; stored and returned plaintext is compared with the membership the scenario text defines for the sending epoch.",
+         "Membership per epoch is computed from the scenario description, never from the implementation; cryptographic strength of MLS/NIP-44 is assumed.",
+         "3/C03"),
+ "C11": ("E1 mdkx on SQLite", "model_checking",
+         "lock-step product search over pairs (never-restarted replica, shadow replica) of one member; restart of the shadow is enabled in every pair state, so every subset of restart positions of every explored history is covered; oracle = the never-restarted replica",
+         "Results, observable fingerprints and database dumps of the two replicas are compared on every edge and pair state.",
+         "The never-restarted replica is forked by creating a fresh database in-process and copying rows (connection state of a never-reopened database); call-level side effects on the connection are not carried across forks.",
+         "3/C11"),
 }
 
 PENDING_REASON = "check not built yet in this revision (see DESIGN.md section 7 build order); will be claimed when its engine lands"
